@@ -100,6 +100,18 @@ def configs(tier):
             for i in range(8)]
 
 
+def _payload(tape, who, i):
+    # application messages of any content: short, empty, binary, large
+    k = tape.choose(6, "pl")
+    if k == 0:
+        return b""
+    if k == 1:
+        return b"\x00"
+    if k == 2:
+        return tape.blob(3000, 70 + i)
+    return who + b"-%d" % i
+
+
 def run_one(seed, tape, opts):
     w = MailboxWorld(tape, opts)
     sim = w.sim
@@ -135,7 +147,8 @@ def run_one(seed, tape, opts):
     bmode = tape.pick(("set", "input", "input_late"), "bmode")
     a.script = ca.interleave(
         tape, [("set_code", code_a)],
-        [("send", b"A-%d" % i) for i in range(tape.choose(3, "na"))])
+        [("send", _payload(tape, b"A", i))
+         for i in range(tape.choose(3, "na"))])
     np_b, words_b = code_b.split("-", 1)
     if bmode == "set":
         cb = [("set_code", code_b)]
@@ -145,7 +158,8 @@ def run_one(seed, tape, opts):
             cb.append(("wait_steps", 4 + tape.choose(30, "late")))
         cb.append(("helper", "choose_words", words_b))
     b.script = ca.interleave(
-        tape, cb, [("send", b"B-%d" % i) for i in range(tape.choose(3, "nb"))])
+        tape, cb, [("send", _payload(tape, b"B", i))
+                   for i in range(tape.choose(3, "nb"))])
     for c in (a, b):
         c.script += [("wait_all_delivered", "B" if c is a else "A") if match
                      else
